@@ -267,6 +267,8 @@ type rec struct {
 	Fail     *failRec       `json:"fail,omitempty"`
 	Outcomes map[string]int `json:"outcomes,omitempty"`
 	Edges    map[string]int `json:"edges,omitempty"`
+	Disc     map[string]int `json:"disc,omitempty"`
+	Alt      map[string]int `json:"alt,omitempty"`
 	Sample   any            `json:"sample,omitempty"`
 }
 
@@ -307,6 +309,8 @@ type worker struct {
 	stake  int64
 	sample bool
 	explained int64
+	disc   map[string]int
+	alt    map[string]int
 }
 
 func jobID(ci int, p string) string { return fmt.Sprintf("%d|%s", ci, p) }
@@ -624,9 +628,24 @@ func (w *worker) run(item func(string) bool) {
 			w.edges[e.key()]++
 			w.stake++
 		}
+		stakes := t.atStake()
+		alts := make([]*node, len(stakes))
+		for i, e := range stakes {
+			alts[i] = regroup(t, e)
+			if alts[i] != nil {
+				w.alt[e.key()] = 1
+			}
+		}
 		for ai, a := range assignments(ts, w.arg.Seed) {
 			w.cases++
-			ps = append(ps, &pending{t: t, idx: idx, ai: ai, a: a, ref: refOutcome(w.ref, t, a)})
+			ref := refOutcome(w.ref, t, a)
+			ps = append(ps, &pending{t: t, idx: idx, ai: ai, a: a, ref: ref})
+			// vacuity guard: do the leaf values tell the table's grouping from the opposite one?
+			for i, e := range stakes {
+				if alts[i] != nil && w.disc[e.key()] == 0 && refOutcome(w.ref, alts[i], a) != ref {
+					w.disc[e.key()] = 1
+				}
+			}
 		}
 		if len(ps) >= 48 {
 			w.flush(ps)
@@ -641,13 +660,13 @@ func (w *worker) run(item func(string) bool) {
 		return true
 	})
 	w.flush(ps)
-	w.em.Emit(rec{Kind: "count", Trees: w.trees, Cases: w.cases, Evals: w.evals, Scripts: w.batch.Scripts, Stake: w.stake, Explained: w.explained, Outcomes: w.out, Edges: w.edges})
+	w.em.Emit(rec{Kind: "count", Trees: w.trees, Cases: w.cases, Evals: w.evals, Scripts: w.batch.Scripts, Stake: w.stake, Explained: w.explained, Outcomes: w.out, Edges: w.edges, Disc: w.disc, Alt: w.alt})
 }
 
 func handler(pw *pool.W, raw json.RawMessage) {
 	var a shardArg
 	json.Unmarshal(raw, &a)
-	w := &worker{arg: a, em: pw, batch: newBatch(), ref: newRefEnv(), out: map[string]int{}, edges: map[string]int{}}
+	w := &worker{arg: a, em: pw, batch: newBatch(), ref: newRefEnv(), out: map[string]int{}, edges: map[string]int{}, disc: map[string]int{}, alt: map[string]int{}}
 	defer w.ref.close()
 	w.run(pw.Item)
 }
@@ -694,6 +713,8 @@ func main() {
 	var trees, cases, evals, scripts, stake, explained int64
 	outcomes := map[string]int{}
 	edges := map[string]int{}
+	disc := map[string]bool{}
+	hasAlt := map[string]bool{}
 	completed := "nothing"
 	runLevel := func(n int, core bool) {
 		if c.Expired() {
@@ -732,6 +753,12 @@ func main() {
 				}
 				for k, v := range r.Edges {
 					edges[k] += v
+				}
+				for k := range r.Disc {
+					disc[k] = true
+				}
+				for k := range r.Alt {
+					hasAlt[k] = true
 				}
 			case "fail":
 				if os.Getenv("C04_VERBOSE") != "" {
@@ -781,6 +808,15 @@ func main() {
 	}
 	sort.Strings(ek)
 	c.Set("classes_at_stake", ek)
+	var nodisc []string
+	for _, k := range ek {
+		if hasAlt[k] && !disc[k] {
+			nodisc = append(nodisc, k)
+		}
+	}
+	c.Set("classes_with_an_opposite_grouping", len(hasAlt))
+	c.Set("classes_where_the_opposite_grouping_gives_another_value", len(disc))
+	c.Set("classes_not_discriminated_by_the_leaf_values", nodisc)
 	c.Assume("per-operator meaning in the reference evaluation is origami's own operator node applied to constants (C03 judges those); only the grouping comes from the check's table")
 	c.Assume("groupings the statement leaves open keep their parentheses in the minimal printing: '.' against << >> < <= > >= <=> == != === !== & ^ | && ||, chains of comparison / equality / ?: operators, assignment inside a larger expression")
 	c.Assume("instanceof, like, xor/and/or, ++/--, array/member access are not in the statement's table and are not enumerated; deeper trees than the bound are not explored")
@@ -799,7 +835,7 @@ func replay(c *ev.Check) {
 	}
 	fmt.Printf("key: %s\nshape: %s\nminimal: %s\nfull:    %s\n", key, cs.Shape, cs.Min, cs.Full)
 	lw := &localW{}
-	w := &worker{arg: shardArg{N: cs.N, Lo: cs.Idx, Hi: cs.Idx + 1, Core: cs.Core, Seed: cs.Seed}, em: lw, batch: newBatch(), ref: newRefEnv(), out: map[string]int{}, edges: map[string]int{}}
+	w := &worker{arg: shardArg{N: cs.N, Lo: cs.Idx, Hi: cs.Idx + 1, Core: cs.Core, Seed: cs.Seed}, em: lw, batch: newBatch(), ref: newRefEnv(), out: map[string]int{}, edges: map[string]int{}, disc: map[string]int{}, alt: map[string]int{}}
 	w.run(func(string) bool { return true })
 	w.ref.close()
 	hit := false
